@@ -188,6 +188,42 @@ def jnp_sum(I, x, axis=None):
     raise Unsupported(f"jnp.sum of {type(x).__name__}")
 
 
+def logsumexp(I, x, *a, **k):
+    _used("A4: logsumexp of a length-1 vector is its element; otherwise an uninterpreted function of the vector")
+    if isinstance(x, (SReal, float, int)):
+        return SReal(zreal(x))
+    if isinstance(x, Stacked):
+        f = I.ctx.fn("logsumexp", U, z3.RealSort())
+        t = I.to_u(x)
+        r = f(t)
+        n = x.n if not isinstance(x.n, int) else z3.IntVal(x.n)
+        I.ctx.assume(z3.Implies(n == 1, r == zreal(x.at(z3.IntVal(0)))))
+        if not hasattr(I.ctx, "lse"):
+            I.ctx.lse = []
+        I.ctx.lse.append((r, x))
+        return SReal(r)
+    if isinstance(x, UVal):
+        return SReal(I.ctx.fn("logsumexp", U, z3.RealSort())(x.t))
+    raise Unsupported("logsumexp")
+
+
+def jnp_log(I, x):
+    if isinstance(x, int) and x == 1:
+        return SReal(0.0)
+    if isinstance(x, (int, float, SReal, SInt)):
+        f = I.ctx.fn("log", z3.RealSort(), z3.RealSort())
+        I.ctx.assume(f(z3.RealVal(1)) == 0)
+        return SReal(f(zreal(x)))
+    raise Unsupported("jnp.log")
+
+
+def jnp_expand_dims(I, v, axis=0):
+    _used("A4: expand_dims(v, 0) is the length-1 stack [v]")
+    if axis != 0:
+        raise Unsupported("expand_dims axis != 0")
+    return Stacked(1, lambda i: v, tag="expand_dims")
+
+
 def jnp_shape(I, x):
     if isinstance(x, (bool, int, float, SBool, SInt)):
         return ()
@@ -320,6 +356,12 @@ def opaque_tree_map(I, f, t, others, is_leaf):
     except (Unsupported, PyRaise):
         r = None
     trees = [t] + [o if isinstance(o, UVal) else UVal(I.to_u(o)) for o in others]
+    if isinstance(r, Stacked):
+        # leafwise stacking (expand_dims / broadcasting a leaf) is treewise stacking of the tree (A5)
+        e0 = r.at(z3.IntVal(0))
+        for l, tr_ in zip(leaves, trees):
+            if isinstance(e0, UVal) and e0.t.eq(l.t):
+                return Stacked(r.n, lambda i, tr_=tr_: tr_, tag="stack-of-tree")
     if isinstance(r, UVal):
         sub = [(l.t, tr.t) for l, tr in zip(leaves, trees)]
         for l, tr in zip(leaves, trees):
@@ -528,6 +570,9 @@ def install(I):
     e["jax.numpy.zeros"] = jnp_zeros
     e["jax.numpy.sum"] = jnp_sum
     e["jax.numpy.shape"] = jnp_shape
+    e["jax.scipy.special.logsumexp"] = logsumexp
+    e["jax.numpy.log"] = jnp_log
+    e["jax.numpy.expand_dims"] = jnp_expand_dims
     e["jax.numpy.arange"] = jnp_arange
     e["jax.numpy.choose"] = jnp_choose
     e["jax.numpy.clip"] = jnp_clip
